@@ -41,7 +41,8 @@ def bucket (n : Nat) : String :=
 
 def handle (inp out : String) : String :=
   match words inp with
-  | "sw" :: mode :: op :: args =>
+  | sw :: mode :: op :: args =>
+    if sw != "sw" && sw != "swn" then "skip unknown-op" else
     match out.splitOn " |" with
     | [head, ents] =>
       let hd := words head
@@ -71,8 +72,8 @@ def handle (inp out : String) : String :=
               | none => false)
             match bad with
             | some e => s!"diff sw:{op} fault-{e.k}:impl-status={e.st}:model-says-{if e.st == "0" then "error" else "ok"}"
-            | none => s!"ok sw:{op}:{modeK}:modelled:N{bucket n}:st{st0}:fired{bucket fired}:inessential{bucket survived}"
-        | none => s!"ok sw:{op}:{modeK}:N{bucket n}:st{st0}:fired{bucket fired}:inessential{bucket survived}"
+            | none => s!"ok {sw}:{op}:{modeK}:modelled:N{bucket n}:st{st0}:fired{bucket fired}:inessential{bucket survived}"
+        | none => s!"ok {sw}:{op}:{modeK}:N{bucket n}:st{st0}:fired{bucket fired}:inessential{bucket survived}"
     | _ => if out.startsWith "BAD-OP" then "skip unknown-op" else "skip malformed-output"
   | _ => "skip unknown-op"
 
